@@ -1325,19 +1325,41 @@ def search(ctx, reason):
     try:
         sub = vlib.Ctx(ctx.prop, ctx.tier, ctx.seed)
         sub.disagree = quiet
-        cases = list(gen_rule_exhaustive("thorough")) + [gen_rule_random(rng) for _ in range(100000)]
-        for i in range(0, len(cases), 20000):
-            run_rule_cases(sub, cases[i:i + 20000])
-            if sub.violations:
-                break
-        if not sub.violations:
+        known = {f["key"] for f in vlib.known_findings().get("findings", []) if f.get("property") == ctx.prop}
+        # findings of this check that are reproduced on every run must not shadow a new failing input
+        known |= {"verdict:unreported-test-ignored", "verdict:retried-test-reported-failed"}
+
+        def fresh():
+            return [v for v in sub.violations if v["key"] not in known]
+
+        def hunt_rules():
+            cases = list(gen_rule_exhaustive("thorough")) + [gen_rule_random(rng) for _ in range(100000)]
+            for i in range(0, len(cases), 20000):
+                run_rule_cases(sub, cases[i:i + 20000])
+                if fresh():
+                    return
+
+        def hunt_machine():
             mc = [gen_machine_case(rng, True) for _ in range(6000)]
             for i in range(0, len(mc), 1000):
                 run_machine_cases(sub, mc[i:i + 1000])
-                if sub.violations:
-                    break
-        if not sub.violations:
+                if fresh():
+                    return
+
+        def hunt_verdict():
             run_verdict_cases(sub, [gen_verdict_case(rng) for _ in range(1500)])
+
+        where = ctx.disagreements[0]["where"] if ctx.disagreements else ""
+        order = [hunt_rules, hunt_machine, hunt_verdict]
+        if where.startswith("machine"):
+            order = [hunt_machine, hunt_verdict, hunt_rules]
+        elif where in ("verdict", "suite"):
+            order = [hunt_verdict, hunt_machine, hunt_rules]
+        for hunt in order:
+            hunt()
+            if fresh():
+                break
+        sub.violations = fresh()
         if sub.violations:
             v = sub.violations[0]
             c = v["case"]
